@@ -12,6 +12,7 @@ import (
 	"encoding/json"
 	"errors"
 	"fmt"
+	"net/http"
 	"sort"
 	"strings"
 	"time"
@@ -376,7 +377,7 @@ func (f *fixture) execute(idx int, cs *Case) observation {
 	auth, sess := w.headers[cs.Auth], sessionHeaderValue(cs.Sess)
 
 	switch cs.Via {
-	case "decision":
+	case "decision", "envoy":
 		req := &hx.Req{Method: "GET", Scheme: "http", Host: "svc.local", RawPath: rulePath(idx)}
 		if auth != "" {
 			req.Header = append(req.Header, [2]string{"Authorization", auth})
@@ -400,12 +401,36 @@ func (f *fixture) execute(idx int, cs *Case) observation {
 				req.Header = append(req.Header, [2]string{"Cookie", "session=" + sess + "; session="})
 			case "cookie-first-of-two-header-lines":
 				req.Header = append(req.Header, [2]string{"Cookie", "session=" + sess}, [2]string{"Cookie", "session="})
+			case "cookie-among-sloppy-ones":
+				req.Header = append(req.Header, [2]string{"Cookie", "flag; session=" + sess + `; prefs={"a":1}; `})
+			case "body-form":
+				req.Method, req.Body = "POST", "session="+sess
+				req.Header = append(req.Header, [2]string{"Content-Type", "application/x-www-form-urlencoded"})
+			case "body-json":
+				req.Method, req.Body = "POST", `{"session":"`+sess+`"}`
+				req.Header = append(req.Header, [2]string{"Content-Type", "application/json"})
+			case "body-json-type-with-a-parameter-without-value":
+				req.Method, req.Body = "POST", `{"session":"`+sess+`"}`
+				req.Header = append(req.Header, [2]string{"Content-Type", "application/json; charset"})
+			case "body-form-type-with-an-unterminated-parameter":
+				req.Method, req.Body = "POST", "session="+sess
+				req.Header = append(req.Header, [2]string{"Content-Type", `application/x-www-form-urlencoded; boundary="x`})
 			default:
 				panic("unknown placement " + cs.Place)
 			}
 		}
 
-		resp := f.apps.DoDecision(req)
+		var resp *hx.Resp
+
+		if cs.Via == "envoy" {
+			resp = f.apps.DoEnvoy(req)
+			if resp.Allowed {
+				resp.Header = http.Header{subjectHeader: []string{resp.OkHeaders[subjectHeader]}}
+			}
+		} else {
+			resp = f.apps.DoDecision(req)
+		}
+
 		if resp.ParseErr != nil {
 			obs.Err = "request not parsable: " + resp.ParseErr.Error()
 
@@ -570,13 +595,16 @@ func judge(c *engine.Ctx, f *fixture, idx int, cs *Case) observation {
 // equal those of the direct rule execution (which is the one judged against the reference walk).
 func compareDecision(c *engine.Ctx, f *fixture, idx int, cs *Case, direct observation) {
 	ds := *cs
-	ds.Via = "decision"
+	if ds.Via != "envoy" {
+		ds.Via = "decision"
+	}
+
 	dec := f.execute(idx, &ds)
 
 	c.Eval(1)
 
 	if dec.OK != direct.OK || dec.Subject != direct.Subject {
-		c.Violation("decision-service-differs-from-direct-rule-execution"+x(ds.Place != "", "/session-in-"+ds.Place, ""),
+		c.Violation(ds.Via+"-service-differs-from-direct-rule-execution"+x(ds.Place != "", "/session-in-"+ds.Place, ""),
 			fmt.Sprintf("%s: direct: %s; decision service: %s", cs, direct, dec), &ds)
 	}
 
@@ -588,7 +616,8 @@ func compareDecision(c *engine.Ctx, f *fixture, idx int, cs *Case, direct observ
 }
 
 var placements = []string{"query", "query+malformed-pair-elsewhere", "query-first-of-two", "cookie", "cookie-among-others",
-	"cookie-first-of-two", "cookie-first-of-two-header-lines"}
+	"cookie-first-of-two", "cookie-first-of-two-header-lines", "cookie-among-sloppy-ones", "body-form", "body-json",
+	"body-json-type-with-a-parameter-without-value", "body-form-type-with-an-unterminated-parameter"}
 
 func x(cond bool, a, b string) string {
 	if cond {
@@ -685,6 +714,12 @@ func run(c *engine.Ctx) {
 						ps := *cs
 						ps.Place = p
 						compareDecision(c, f, idx, &ps, direct)
+
+						// and as Envoy hands the request over (first cookie header line only: Envoy joins the lines itself)
+						if p != "cookie-first-of-two-header-lines" {
+							ps.Via = "envoy"
+							compareDecision(c, f, idx, &ps, direct)
+						}
 					}
 				}
 			}
@@ -735,7 +770,8 @@ func replay(c *engine.Ctx, raw json.RawMessage) {
 	obs := judge(c, f, 0, &cs)
 	fmt.Printf("replay: %s\n  classes: %v\n  observed: %s\n", &cs, cl, obs)
 
-	if via == "decision" {
+	if via == "decision" || via == "envoy" {
+		cs.Via = via
 		compareDecision(c, f, 0, &cs, obs)
 	}
 }
@@ -761,7 +797,7 @@ func Check() *engine.Check {
 			"takes at least one fallback decision).",
 		Assumptions: []string{
 			"each type occurs at most once per chain; credentials of basic_auth, jwt and oauth2_introspection come from the one Authorization header, " +
-				"those of generic from the X-Session header; through the decision service also from the query (alone, next to a malformed pair, first of two) and from a cookie (alone, among others, first of two in one or two header lines), with the same decision demanded",
+				"those of generic from the X-Session header; through the decision service also from the query (alone, next to a malformed pair, first of two) and from a cookie (alone, among others, first of two in one or two header lines, among sloppy ones) and from the body (form, JSON, content types with malformed parameters), also as Envoy hands the request over, with the same decision demanded",
 			"jwt: an opaque (non-JWT) bearer token counts as 'no credentials of its kind' (docs/content/docs/rules/regular_rule.adoc: 'the jwt " +
 				"authenticator ... will be only executed, if the token is in a JWT format'); a JWS with alg none, three garbage segments, a bare " +
 				"scheme word, non-base64 / colon-less Basic credentials are 'malformed' = don't-care, the observed side is recorded as outcome",
